@@ -94,20 +94,34 @@ def run_case(text: str, cfg: dict):
         for n in cfg.get("cli_off", ()):
             settings[getattr(ErrorCode, n)] = False
         top_off = list(cfg.get("top_off", ()))
+        top_on = list(cfg.get("top_on", ()))
+        ext_off = list(cfg.get("ext_off", ()))
+        ext_on = list(cfg.get("ext_on", ()))
         override = cfg.get("override")
         kwargs = {}
-        if top_off or override:
-            # codes steered by the config file must not also get a command-line instance
-            steered = set(top_off) | set(override[1] if override else ())
+        if top_off or top_on or ext_off or ext_on or override:
+            # codes steered by the config files get no command-line instance, unless the configuration
+            # names them on the command line as well (a command-line entry on top of a config layer)
+            steered = set(top_off) | set(top_on) | set(ext_off) | set(ext_on) | set(override[1] if override else ())
+            steered -= set(cfg.get("cli_on", ())) | set(cfg.get("cli_off", ()))
             for n in steered:
                 settings.pop(getattr(ErrorCode, n), None)
             tmp = tempfile.mkdtemp(prefix="c11cfg_")
-            lines = ["[tool.pyanalyze]", f'extend_config = "{s["CONFIG_PATH"]}"']
+            base_cfg_path = s["CONFIG_PATH"]
+            if ext_off or ext_on:
+                # an extended file between the main file and the test configuration
+                ext = ["[tool.pyanalyze]", f'extend_config = "{s["CONFIG_PATH"]}"'] + [f"{n} = false" for n in ext_off] + [f"{n} = true" for n in ext_on]
+                base_cfg_path = os.path.join(tmp, "ext.toml")
+                with open(base_cfg_path, "w") as fh:
+                    fh.write("\n".join(ext) + "\n")
+            lines = ["[tool.pyanalyze]", f'extend_config = "{base_cfg_path}"']
             for n in top_off:
                 lines.append(f"{n} = false")
+            for n in top_on:
+                lines.append(f"{n} = true")
             if override:
                 for n in override[1]:
-                    if n not in top_off:
+                    if n not in top_off and n not in top_on:
                         lines.append(f"{n} = true")
                 lines.append("[[tool.pyanalyze.overrides]]")
                 lines.append(f'module = "{override[0]}"')
